@@ -2,9 +2,13 @@
 from harness import chk
 
 ID = "C09"
-MODULES = ["HeraProofs.Props.C09"]
+MODULES = ["HeraProofs.Props.C09", "HeraProofs.Props.C09b"]
 GENERATED_DEPS = ["Tables.lean", "Ops.lean", "Exec.lean"]
-EXPLANATION = ("Theorems: table_P (the regenerated P table of every class equals the hand-written documented signature table), "
+EXPLANATION = ("Program-level rules, in the direction `a non-conforming program is rejected` (C09b, over the checker model, every "
+               "program, every mode): C09_redeclaration_iff (the redeclaration pass reports nothing iff no name is declared twice), "
+               "C09_redeclared_rejected, C09_data_after_code_rejected, C09_debug_ops_rejected, tc_errors_grow (messages are only ever "
+               "added). "
+               "Theorems: table_P (the regenerated P table of every class equals the hand-written documented signature table), "
                "checkArg_iff, C09_op_iff (the model of op.typecheck reports no error for an operation iff it conforms to its "
                "documented signature, for all tokens, all integers, all symbol environments, both assembly_only settings). "
                "Checker model corresponded with the real parse+check on the operand grid (every operation name x arity 0..4 x "
